@@ -1,5 +1,6 @@
 import CashewsVerif.Lemmas.LockExamples
 import CashewsVerif.Lemmas.LockHealth
+import CashewsVerif.Lemmas.LockFacade
 /-
 C06 — `cache.lock` / `@locked` give mutual exclusion with owner-only release.
 
@@ -477,6 +478,110 @@ theorem locks_do_not_depend_on_transactions (s0 : LockSt σ) (tr : List Act) :
   rw [hx]
   exact ⟨rfl, rfl⟩
 
+/-! ### the facade: ttl spellings, user middlewares, generator consumers -/
+
+/-- **The lease is the duration the ttl denotes.**  A `lock()` call written with any spelling of its ttl
+(`int` seconds, `float`, a `timedelta` WITH its days and its sub-second part, `"1m30s"`, `"90"`, or none) is the
+`enter` action with the denoted number of ticks (`Model/TtlFacade.lean: Denotes`) - `ttl_to_seconds` neither
+truncates nor drops anything.  All theorems of this file therefore hold with "lease" = the duration the
+application wrote. -/
+theorem spelled_ttl_is_the_lease (e : FEnter) (ttl : Option Nat) (h : Ttl.DenotesOpt e.expire ttl) :
+    e.lower = some (.enter e.t e.th e.key ttl e.wait) :=
+  FEnter.lower_of_denotes e ttl h
+
+/-- the same, spelled out for the acquisition: in a reachable state with no live lock on the key, a caller that
+wrote its ttl as `p` (denoting `d` ticks) and attempts at instant `now` owns the key until `now + d` -/
+theorem spelled_lease_deadline (C : LockContract B Ok keyOk) {s0 : LockSt σ}
+    (h0 : Start B Ok s0) (tr : List Act) (htr : ∀ a ∈ tr, a.keysIn keyOk)
+    (e : FEnter) (p : Ttl.Plain) (d : Nat) (hp : e.expire = some p) (hd : Ttl.Denotes p d)
+    (hk : keyOk e.key) (hidle : ((run B s0 tr).tasks e.t).busy = false)
+    (hen : ((run B s0 tr).health ((run B s0 tr).route e.key)).setLock = true)
+    (hfree : B.owner (run B s0 tr).be e.key = none) :
+    ∃ a, e.lower = some a ∧
+      let s := (step B (run B s0 tr) a).1
+      (step B s (.attempt e.t)).2 = .acquired ∧
+      ∃ tok, (step B s (.attempt e.t)).1.tasks e.t = .inside e.key tok (deadlineOf (B.now (run B s0 tr).be) (some d)) := by
+  have hl := FEnter.lower_of_denotes e (some d) (hp ▸ Ttl.DenotesOpt.given hd)
+  refine ⟨_, hl, ?_⟩
+  have htr' : ∀ a ∈ tr ++ [Act.enter e.t e.th e.key (some d) e.wait], a.keysIn keyOk := by
+    intro a ha
+    simp only [List.mem_append, List.mem_singleton] at ha
+    rcases ha with ha | ha
+    · exact htr a ha
+    · rw [ha]; exact hk
+  have hrun := run_snoc (B := B) s0 tr (Act.enter e.t e.th e.key (some d) e.wait)
+  have hstep : (step B (run B s0 tr) (.enter e.t e.th e.key (some d) e.wait)).1 =
+      { setTask (run B s0 tr) e.t (.trying e.key (some d) e.wait (run B s0 tr).next) with
+        next := (run B s0 tr).next + 1,
+        thr := fun t' => if t' = e.t then e.th else (run B s0 tr).thr t' } := by
+    simp only [step, hidle, Bool.false_eq_true, if_false]
+  have ht : (run B s0 (tr ++ [Act.enter e.t e.th e.key (some d) e.wait])).tasks e.t =
+      .trying e.key (some d) e.wait (run B s0 tr).next := by
+    rw [hrun, hstep]; simp [setTask_tasks]
+  have hbe : (run B s0 (tr ++ [Act.enter e.t e.th e.key (some d) e.wait])).be = (run B s0 tr).be := by
+    rw [hrun, hstep]; rfl
+  have hen' : ((run B s0 (tr ++ [Act.enter e.t e.th e.key (some d) e.wait])).health
+      ((run B s0 (tr ++ [Act.enter e.t e.th e.key (some d) e.wait])).route e.key)).setLock = true := by
+    rw [hrun, hstep]; exact hen
+  have := acquisition_liveness C h0 _ htr' e.t e.key (some d) e.wait _ ht hen' (by rw [hbe]; exact hfree)
+  simp only at this
+  rw [hrun] at this
+  have hbe' : (step B (run B s0 tr) (Act.enter e.t e.th e.key (some d) e.wait)).1.be = (run B s0 tr).be := by
+    rw [hstep]; rfl
+  rw [hbe'] at this
+  exact ⟨this.1, _, this.2.1⟩
+
+/-- **`memory_limit` lets the lock commands through**: whatever the window and whatever the size of the
+token, `set_lock`, `unlock`, `is_locked` and the probe reach the backend (the middleware filters `set` and
+`set_many` only).  A user middleware that answered None for `set_lock` would switch locking off
+(`disabled_set_lock_means_no_locking`). -/
+theorem memory_limit_passes_lock_commands (minB : Nat) (maxB : Option Nat) (c : CmdKind) (sizes : List Nat)
+    (hc : c.isLockCmd = true) : memoryLimitPasses minB maxB c sizes = true := by
+  cases c <;> simp [CmdKind.isLockCmd] at hc <;> rfl
+
+/-- **Key-rewriting middlewares** (`add_prefix`, `all_keys_lower`: the same function of the key for every lock
+command) keep the protocol: the run is the run of the renamed trace, to which the mutual-exclusion theorem
+applies with the renamed key - two activations inside the section of `f key` are not both within their lease. -/
+theorem mutual_exclusion_under_key_middleware (C : LockContract B Ok keyOk) {s0 : LockSt σ}
+    (h0 : Start B Ok s0) (f : Nat → Nat) (tr : List Act) (htr : ∀ a ∈ tr, a.keysIn (fun k => keyOk (f k)))
+    (key t1 t2 : Nat) (hne : t1 ≠ t2)
+    (h1 : insideKey (run B s0 (tr.map (Act.mapKey f))) t1 (f key) = true)
+    (h2 : insideKey (run B s0 (tr.map (Act.mapKey f))) t2 (f key) = true) :
+    ¬ (withinLease B (run B s0 (tr.map (Act.mapKey f))) t1 = true ∧
+       withinLease B (run B s0 (tr.map (Act.mapKey f))) t2 = true) := by
+  apply mutual_exclusion_within_lease C h0 (tr.map (Act.mapKey f)) _ (f key) t1 t2 hne h1 h2
+  intro a ha
+  obtain ⟨b, hb, rfl⟩ := List.mem_map.mp ha
+  exact mapKey_keysIn f keyOk b (htr b hb)
+
+/-- **Every way of leaving releases**, the consumer of a `@locked` async generator that stops iterating
+included: `released_on_every_exit` is stated for an arbitrary `how`; this is its instance for
+`How.closed` (GeneratorExit at the yield point: `break` + `aclose()`, `aclosing`, finalisation of an abandoned
+generator) - the leaver's own lock is gone afterwards and, if it was within its lease, the key is free. -/
+theorem released_when_consumer_closes_generator (C : LockContract B Ok keyOk) {s0 : LockSt σ}
+    (h0 : Start B Ok s0) (tr : List Act) (htr : ∀ a ∈ tr, a.keysIn keyOk)
+    (t : Nat) (key tok : Nat) (dl : Option Nat)
+    (ht : (run B s0 tr).tasks t = .inside key tok dl)
+    (hw : withinLease B (run B s0 tr) t = true) :
+    (step B (run B s0 tr) (.leave t .closed)).2 = .released true ∧
+    B.owner (step B (run B s0 tr) (.leave t .closed)).1.be key = none ∧
+    (step B (run B s0 tr) (.leave t .closed)).1.tasks t = .done := by
+  have h := released_on_every_exit C h0 tr htr t .closed key tok dl ht
+  simp only at h
+  exact ⟨(h.2.2.2.2.2 hw).1, (h.2.2.2.2.2 hw).2, h.1⟩
+
+/-- If a `timedelta` ttl were cut to whole seconds, the lease would end early: a holder that wrote
+`timedelta(seconds=2, milliseconds=500)` (20 ticks) is inside and within ITS lease at tick 16, yet a waiter
+acquires there (with the faithful lowering it is refused); and `timedelta(milliseconds=500)` would become 0 =
+no expiry at all. -/
+theorem truncated_timedelta_breaks_lease :
+    (Ttl.TDelta.ticks ⟨0, 2, 4⟩ = 20 ∧ truncDelta ⟨0, 2, 4⟩ = 16 ∧ truncDelta ⟨0, 0, 4⟩ = 0) ∧
+    outs ttlOps (init TtlMap.init) (trLease (Ttl.TDelta.ticks ⟨0, 2, 4⟩)) =
+      [.unit, .acquired, .unit, .retry, .unit, .retry] ∧
+    outs ttlOps (init TtlMap.init) (trLease (truncDelta ⟨0, 2, 4⟩)) =
+      [.unit, .acquired, .unit, .retry, .unit, .acquired] ∧
+    deadlineOf 0 (some (truncDelta ⟨0, 0, 4⟩)) = none := by decide
+
 /-! ### the contract is needed: the two repaired defects, as backends, break the theorems -/
 
 /-- With a token-blind `unlock` (defect D7) the stronger mutual-exclusion statement is FALSE: a holder
@@ -618,6 +723,21 @@ example : (∀ a ∈ trOtherBackendOff, a.keepsHealthy ((initRouted TtlMap.init 
   intro a ha
   simp only [trOtherBackendOff, List.mem_cons, List.mem_nil_iff, or_false] at ha
   rcases ha with h | h | h | h | h | h | h <;> subst h <;> simp [Act.keepsHealthy, initRouted, init]
+
+/-- `memory_limit(min_bytes=100)` does filter a `set` of an 85-byte value and a `set_many` of only such values -
+and lets `set_lock` with the 85-byte token through -/
+example : memoryLimitPasses 100 none .set [85] = false ∧ memoryLimitPasses 100 none .setMany [85, 40] = false ∧
+    memoryLimitPasses 0 (some 50) .set [85] = false ∧ memoryLimitPasses 100 none .setMany [85, 400] = true ∧
+    memoryLimitPasses 100 none .setLock [85] = true ∧ memoryLimitPasses 0 (some 50) .unlock [85] = true := by decide
+
+/-- a timedelta of 2.5 s denotes 20 ticks, and the facade-level call lowers to `enter … (some 20)` -/
+example : (FEnter.mk 0 0 0 (some (.delta (Ttl.TDelta.ticks ⟨0, 2, 4⟩))) true).lower =
+    some (.enter 0 0 0 (some 20) true) := rfl
+
+/-- leaving by a consumer's close releases like any other exit -/
+example : outs ttlOps (init TtlMap.init)
+    [.enter 0 0 0 (some 8) true, .attempt 0, .leave 0 .closed, .enter 1 1 0 (some 8) false, .attempt 1] =
+    [.unit, .acquired, .released true, .unit, .acquired] := by decide
 
 end Examples
 
